@@ -344,3 +344,122 @@ func VerifCheck_icase() {
 	}
 	verifReach("end")
 }
+
+// ---------------------------------------------------------------- C17
+
+func verifSplitComma(s string) []string {
+	var out []string
+	cur := ""
+	for i := 0; i < len(s); i++ {
+		if s[i] == ',' {
+			out = append(out, cur)
+			cur = ""
+		} else {
+			cur += string(s[i])
+		}
+	}
+	out = append(out, cur)
+	return out
+}
+
+func verifAtoi(s string) int {
+	n := 0
+	for i := 0; i < len(s); i++ {
+		n = n*10 + int(s[i]-'0')
+	}
+	return n
+}
+
+func VerifSetup_groups() {
+	verifREs = nil
+	verifREs = append(verifREs, verifCompile(verifParam("pattern"), verifParamInt("options"), verifParam("copts")))
+	if p := verifParam("pattern_byname"); p != "" {
+		verifREs = append(verifREs, verifCompile(p, verifParamInt("options"), verifParam("copts")))
+		verifREs = append(verifREs, verifCompile(verifParam("pattern_bynumber"), verifParamInt("options"), verifParam("copts")))
+	}
+}
+
+func verifGroupEq(a, b *Group) bool {
+	if a == nil || b == nil {
+		return a == b
+	}
+	if a.Name != b.Name || len(a.Captures) != len(b.Captures) || a.RuneIndex != b.RuneIndex || a.RuneLength != b.RuneLength {
+		return false
+	}
+	for i := range a.Captures {
+		if a.Captures[i].RuneIndex != b.Captures[i].RuneIndex || a.Captures[i].RuneLength != b.Captures[i].RuneLength {
+			return false
+		}
+	}
+	return true
+}
+
+func VerifCheck_groups() {
+	re := verifREs[0]
+	names := verifSplitComma(verifParam("names"))
+	var nums []int
+	for _, s := range verifSplitComma(verifParam("nums")) {
+		nums = append(nums, verifAtoi(s))
+	}
+	gn := re.GetGroupNumbers()
+	verifNoteInts("numbers", gn)
+	verifAssert("GetGroupNumbers", verifEqInts(gn, nums))
+	gnames := re.GetGroupNames()
+	ok := len(gnames) == len(names)
+	if ok {
+		for i := range names {
+			if gnames[i] != names[i] {
+				ok = false
+			}
+		}
+	}
+	for _, s := range gnames {
+		verifNote(s)
+	}
+	verifAssert("GetGroupNames", ok)
+	for i := range nums {
+		verifAssert("GroupNameFromNumber", re.GroupNameFromNumber(nums[i]) == names[i])
+		if names[i] != "" {
+			verifAssert("GroupNumberFromName", re.GroupNumberFromName(names[i]) == nums[i])
+		}
+	}
+	verifAssert("unknown-name", re.GroupNumberFromName("nosuchgroup") == -1)
+	verifAssert("unknown-number", re.GroupNameFromNumber(977) == "")
+	n := verifParamInt("n")
+	t := verifText(n)
+	m, err := re.FindRunesMatch(t)
+	if err != nil {
+		verifFail("error", err.Error())
+	}
+	if m != nil {
+		verifReach("match")
+		gs := m.Groups()
+		verifAssert("Groups-count", len(gs) == len(nums))
+		for i := range gs {
+			verifAssert("Groups-order-name", gs[i].Name == names[i])
+			if names[i] != "" {
+				verifAssert("GroupByName", verifGroupEq(m.GroupByName(names[i]), &gs[i]))
+			}
+			verifAssert("GroupByNumber", verifGroupEq(m.GroupByNumber(nums[i]), &gs[i]))
+		}
+		verifAssert("GroupByName-unknown", m.GroupByName("nosuchgroup") == nil)
+	} else {
+		verifReach("nomatch")
+	}
+	if len(verifREs) > 1 {
+		a, err := verifREs[1].FindRunesMatch(t)
+		if err != nil {
+			verifFail("error", err.Error())
+		}
+		b, err := verifREs[2].FindRunesMatch(t)
+		if err != nil {
+			verifFail("error", err.Error())
+		}
+		sa, sb := verifSnap(a), verifSnap(b)
+		verifNoteInts("backref-by-name", sa)
+		verifNoteInts("backref-by-number", sb)
+		verifAssert("backref-name==number", verifEqInts(sa, sb))
+		verifReach("backref-leg")
+	}
+	verifReach("end")
+}
